@@ -827,7 +827,8 @@ class bptk():
             if return_format=="df":
                 df = simulation_results.pop(0)
                 for tmp_df in simulation_results:
-                    df = df.join(tmp_df)
+                    # the managers' scenarios may live on different time grids: keep every time of every one of them (as dict and json do)
+                    df = df.join(tmp_df, how="outer")
             else:
                 # this works because in this case the entire data structure is copied a number of times
                 df = simulation_results.pop(0)
